@@ -643,6 +643,9 @@ class Folder:
             raise ContinueEx()
         if k == "Array":
             return [self.fold(x) for x in e["fields"]]
+        if k == "Repeat" and isinstance(e.get("n"), int) and 0 <= e["n"] <= 200000:
+            v = self.fold(e["value"])
+            return [dict(v) for _ in range(e["n"])] if isinstance(v, dict) else [list(v) for _ in range(e["n"])] if isinstance(v, list) else [v] * e["n"]
         if k == "Call":
             if self.on_call:
                 r = self.on_call(self, e)
@@ -790,6 +793,14 @@ class Folder:
             return {"__adt__": adt, "__variant__": last, "#0": vals[0], "0": vals[0]}
         if last in ("from", "into") and len(vals) == 1 and isinstance(vals[0], int):
             return vals[0]
+        adt = self.facts.adts.get(canon(path)) if hasattr(self.facts, "adts") else None
+        if adt and len(adt.get("variants", [])) == 1 and len(adt["variants"][0].get("fieldtys", [])) == len(vals):
+            # a tuple-struct constructor used as a function (`.map(Self)`)
+            d = {"__adt__": canon(path), "__variant__": last}
+            for i, (fd, v) in enumerate(zip(adt["variants"][0]["fieldtys"], vals)):
+                d["#%d" % i] = v
+                d[str(fd.get("name", i))] = v
+            return d
         if self.on_call:
             fake = {"k": "Call", "callee": path, "resolved": path, "ty": "?", "span": {"file": "?", "line": 0, "col": 0},
                     "args": [{"k": "__val__", "v": v} for v in vals]}
@@ -868,7 +879,7 @@ class Folder:
             if plain(x) and plain(y) and type(x) == type(y):
                 o = ordering((x > y) - (x < y))
                 return o if last == "cmp" else {"__adt__": "core::option::Option", "__variant__": "Some", "#0": o, "0": o}
-        if last in ("eq", "ne") and ("cmp::PartialEq" in cc or cc.startswith(("core::array::equality::", "core::slice::cmp::"))) and len(a) == 2:
+        if last in ("eq", "ne") and ("cmp::PartialEq" in cc or cc.startswith(("core::array::equality::", "core::slice::cmp::", "core::tuple::", "core::option::", "core::result::"))) and len(a) == 2:
             def valuelike(v):
                 if isinstance(v, Token):
                     return False
@@ -1060,7 +1071,7 @@ class Folder:
                     return opt(None, False)
                 return opt(_loaded(v.pop(0)) if False else v.pop(0))
             return NotImplemented
-        if last in ("index", "index_mut") and ("ops::Index" in cc or "ops::index" in cc or cc.startswith("core::slice::index") or "slice::index" in cc or cc.startswith("arrayvec::")) and len(a) == 2:
+        if last in ("index", "index_mut") and ("ops::Index" in cc or "ops::index" in cc or cc.startswith("core::slice::index") or "slice::index" in cc or cc.startswith(("arrayvec::", "core::array::", "alloc::vec::"))) and len(a) == 2:
             v = _loaded(self.fold(a[0]))
             i = self.fold(a[1])
             if isinstance(v, list) and isinstance(i, int) and not isinstance(i, bool):
@@ -1155,6 +1166,18 @@ class Folder:
                 if not v:
                     return opt(None, False)
                 return opt((v[0], list(v[1:])) if last == "split_first" else (v[-1], list(v[:-1])))
+            return NotImplemented
+        if last in ("copy_from_slice", "clone_from_slice") and len(a) == 2:
+            dst, src = _loaded(self.fold(a[0])), _loaded(self.fold(a[1]))
+            if isinstance(dst, list) and isinstance(src, list):
+                if len(dst) != len(src):
+                    raise Trap("copy_from_slice: lengths differ (%d vs %d) at %s" % (len(dst), len(src), span_str(e["span"])))
+                for i, x in enumerate(src):
+                    if isinstance(dst[i], Ref):
+                        dst[i].store(_loaded(x))
+                    else:
+                        dst[i] = _loaded(x)
+                return ()
             return NotImplemented
         if last == "fill" and len(a) == 2:
             v = _loaded(self.fold(a[0]))
